@@ -12,6 +12,8 @@ def obligations(tier):
     T = 300 if q else 1800
     obs = [Ob("C12.serializer-reuse", "crosshair", "harness.C12:serializer_reuse", T, bounds="7 x 7 documents, first serialize() abandoned after 0..12 chunks or aborted by a strict SerializeError, optional-tag omission on/off",
               encodes=["html5lib/serializer.py:HTMLSerializer.serialize", "html5lib/serializer.py:HTMLSerializer.render"])]
+    obs.append(Ob("C12.reentrant-module-api", "crosshair", "harness.C12:reentrant", T, bounds="28 x 28 documents / fragments: the input source of one html5lib.parse() call runs another html5lib.parse()/parseFragment() from inside read(); both results equal the standalone ones; etree and dom",
+                  encodes=["html5lib/html5parser.py:parse", "html5lib/html5parser.py:parseFragment"]))
     ctxs = list(range(len(pc.CONTEXTS)))
     if q:
         ctxs = ctxs[::6]
